@@ -14,6 +14,7 @@ import (
 	"fmt"
 	"io"
 	"log"
+	"math"
 	"os"
 	"os/exec"
 	"regexp"
@@ -64,7 +65,8 @@ const (
 type Result struct {
 	Outcome string
 	Stage   int
-	Alloc   uint64 // bytes allocated while serving the request
+	Alloc   uint64 // bytes allocated while serving the request (cumulative, garbage included)
+	Large   uint64 // of those, a lower bound of the bytes that went into objects larger than 32 KiB
 	Site    string // panic site / exit call site / heaviest allocation site
 	Detail  string
 	Micros  int64
@@ -73,8 +75,20 @@ type Result struct {
 // Bad reports whether the outcome violates "finish with a value or an error".
 func (r Result) Bad() bool { return r.Outcome != Returned && r.Outcome != Error }
 
-// AllocBound is the allocation bound for an input of n bytes.
-func AllocBound(n int) uint64 { return 16<<20 + 256*uint64(n) }
+// Allocation bounds for an input of n bytes. Two things are measured per request (runtime/metrics, exact):
+// the cumulative bytes allocated, and how much of that went into large objects (> 32 KiB, the runtime's large
+// object class). A linear decoder with a big per-element constant (8 KiB of scratch buffers for every 4-byte device
+// path node: factor 2000) produces much garbage but no large objects beyond a few copies of its input; memory that
+// is unrelated to the input size (a slice sized by a declared count or length) shows up as large objects.
+// Violation: Large > LargeBound(n), or Alloc > AllocBound(n).
+func AllocBound(n int) uint64 { return 16<<20 + 8192*uint64(n) }
+
+// LargeBound bounds the bytes in objects larger than 32 KiB: buffers that grow by doubling up to the input size,
+// a few copies of the input, and 16 MiB of slack.
+func LargeBound(n int) uint64 { return 16<<20 + 64*uint64(n) }
+
+// overBound applies both bounds.
+func overBound(r Result, n int) bool { return r.Alloc > AllocBound(n) || r.Large > LargeBound(n) }
 
 // ---------------------------------------------------------------------------
 // worker side
@@ -121,6 +135,7 @@ func MaybeWorker() {
 		var b []byte
 		b = append(b, res.Outcome[0])
 		b = binary.LittleEndian.AppendUint64(b, res.Alloc)
+		b = binary.LittleEndian.AppendUint64(b, res.Large)
 		b = binary.LittleEndian.AppendUint32(b, uint32(res.Stage))
 		b = binary.LittleEndian.AppendUint32(b, uint32(len(res.Site)))
 		b = append(b, res.Site...)
@@ -131,11 +146,37 @@ func MaybeWorker() {
 	}
 }
 
-var allocSample = []metrics.Sample{{Name: "/gc/heap/allocs:bytes"}}
+// allocSnapshot is the cumulative allocation state of the process.
+type allocSnapshot struct {
+	bytes uint64
+	small uint64 // upper bound of the bytes in objects of the small size classes (<= 32 KiB)
+}
 
-func allocated() uint64 {
-	metrics.Read(allocSample)
-	return allocSample[0].Value.Uint64()
+func allocated() allocSnapshot {
+	sample := []metrics.Sample{{Name: "/gc/heap/allocs:bytes"}, {Name: "/gc/heap/allocs-by-size:bytes"}}
+	metrics.Read(sample)
+	snap := allocSnapshot{bytes: sample[0].Value.Uint64()}
+	if sample[1].Value.Kind() == metrics.KindFloat64Histogram {
+		h := sample[1].Value.Float64Histogram()
+		// bucket i counts objects of size in (Buckets[i], Buckets[i+1]]; the last bucket is open-ended (large objects)
+		for i, c := range h.Counts {
+			if i+1 < len(h.Buckets) && h.Buckets[i+1] <= 32768 && !math.IsInf(h.Buckets[i+1], 1) {
+				snap.small += c * uint64(h.Buckets[i+1])
+			}
+		}
+	}
+	return snap
+}
+
+// since returns the bytes allocated since before, and a lower bound of the bytes of those that are in large objects.
+func (before allocSnapshot) since() (total, large uint64) {
+	now := allocated()
+	total = now.bytes - before.bytes
+	small := now.small - before.small
+	if total > small {
+		large = total - small
+	}
+	return total, large
 }
 
 var siteRe = regexp.MustCompile(`^\s*(\S+/go-uefi/\S+|debug/pe\.\S+|github\.com/foxboron/\S+)\(`)
@@ -206,7 +247,7 @@ func serve(name string, input []byte, flags uint32) (res Result) {
 			res.Outcome = Returned
 		}
 	}()
-	res.Alloc = allocated() - before
+	res.Alloc, res.Large = before.since()
 	if flags&flagProfile != 0 {
 		res.Site = heaviestAllocSite()
 		runtime.MemProfileRate = 512 * 1024
@@ -359,7 +400,7 @@ func (p *Pool) roundTrip(entry string, input []byte, flags uint32, deadline time
 			ch <- resp{err: err}
 			return
 		}
-		var hdr [17]byte
+		var hdr [25]byte
 		if _, err := io.ReadFull(w.out, hdr[:]); err != nil {
 			ch <- resp{err: err}
 			return
@@ -377,8 +418,9 @@ func (p *Pool) roundTrip(entry string, input []byte, flags uint32, deadline time
 			return
 		}
 		r.Alloc = binary.LittleEndian.Uint64(hdr[1:])
-		r.Stage = int(binary.LittleEndian.Uint32(hdr[9:]))
-		sl := binary.LittleEndian.Uint32(hdr[13:])
+		r.Large = binary.LittleEndian.Uint64(hdr[9:])
+		r.Stage = int(binary.LittleEndian.Uint32(hdr[17:]))
+		sl := binary.LittleEndian.Uint32(hdr[21:])
 		site := make([]byte, sl)
 		if _, err := io.ReadFull(w.out, site); err != nil {
 			ch <- resp{err: err}
@@ -483,15 +525,15 @@ func (p *Pool) Run(entry string, input []byte) (Result, error) {
 			p.confirmed[key] = r
 		}
 	}
-	if (r.Outcome == Returned || r.Outcome == Error) && r.Alloc > AllocBound(len(input)) {
-		total := r.Alloc
+	if (r.Outcome == Returned || r.Outcome == Error) && overBound(r, len(input)) {
+		total, large := r.Alloc, r.Large
 		r2, err := p.roundTrip(entry, input, flagProfile, 6*p.Deadline)
 		if err == nil && r2.Site != "" {
 			r.Site = r2.Site
 		}
 		r.Outcome = Alloc
-		r.Alloc = total
-		r.Detail = fmt.Sprintf("%d bytes allocated for a %d-byte input (bound %d)", total, len(input), AllocBound(len(input)))
+		r.Alloc, r.Large = total, large
+		r.Detail = fmt.Sprintf("%d bytes allocated for a %d-byte input, at least %d of them in objects larger than 32 KiB (bounds: %d in total, %d in large objects)", total, len(input), large, AllocBound(len(input)), LargeBound(len(input)))
 	}
 	return r, nil
 }
@@ -503,9 +545,9 @@ func InProcess(entry string, input []byte) Result {
 	var buf bytes.Buffer
 	_ = buf
 	r := serve(entry, input, 0)
-	if (r.Outcome == Returned || r.Outcome == Error) && r.Alloc > AllocBound(len(input)) {
+	if (r.Outcome == Returned || r.Outcome == Error) && overBound(r, len(input)) {
 		r.Outcome = Alloc
-		r.Detail = fmt.Sprintf("%d bytes allocated for a %d-byte input", r.Alloc, len(input))
+		r.Detail = fmt.Sprintf("%d bytes allocated for a %d-byte input, at least %d of them in objects larger than 32 KiB", r.Alloc, len(input), r.Large)
 	}
 	return r
 }
